@@ -191,7 +191,11 @@ def xstep (s : St) (w : List String) : St × String :=
           | none => acc) (arraySet len)
         let s1 := { s with xarr := ps, xdims := List.range k, xlen := len }
         let out := xdump s1 (if lengthUser ps = 0 then "refused" else "ok")
-        (s, out.replace s!"I len={len}" s!"I len={len} walked={ps.length}")
+        -- `polyline::iterator` compares positions in the point array: trailing parts without drawn points are
+        -- not visited
+        let total := lengthUser ps
+        let walked := ((List.range (ps.length + 1)).find? fun k => lengthUser (ps.take k) = total).getD ps.length
+        (s, out.replace s!"I len={len}" s!"I len={len} walked={walked}")
     | none => (s, "bad-op")
   | ["xl", "reset"] =>
     let s1 := { s with xarr := arraySet (lengthRaw s.xarr), xdims := [] }
